@@ -54,6 +54,9 @@ type Modules struct {
 	// unrevisioned holds the modules and submodules that have no revision
 	// statement, keyed by kind and name.
 	unrevisioned map[string]*Module
+	// expanding holds the groupings that are being converted to entries at
+	// the moment; it is protected by entryCacheMu.
+	expanding map[*Grouping]bool
 }
 
 // NewModules returns a newly created and initialized Modules.
@@ -515,6 +518,28 @@ func (ms *Modules) setEntryCache(n Node, e *Entry) {
 	ms.entryCacheMu.Lock()
 	defer ms.entryCacheMu.Unlock()
 	ms.entryCache[n] = e
+}
+
+// enterGrouping notes that g is being converted to an entry. It returns false
+// if that is already the case, i.e. g is used inside itself.
+func (ms *Modules) enterGrouping(g *Grouping) bool {
+	ms.entryCacheMu.Lock()
+	defer ms.entryCacheMu.Unlock()
+	if ms.expanding[g] {
+		return false
+	}
+	if ms.expanding == nil {
+		ms.expanding = map[*Grouping]bool{}
+	}
+	ms.expanding[g] = true
+	return true
+}
+
+// leaveGrouping notes that the conversion of g is finished.
+func (ms *Modules) leaveGrouping(g *Grouping) {
+	ms.entryCacheMu.Lock()
+	defer ms.entryCacheMu.Unlock()
+	delete(ms.expanding, g)
 }
 
 // ClearEntryCache clears the entryCache containing previously converted nodes
